@@ -144,14 +144,18 @@ func (p *pod) goFetchPodResources(ch <-chan *podresapi.PodResources) {
 	go func() {
 		defer close(waitCh)
 
+		// Note: we are not running under the lock of the cache user here, so
+		// we must not touch any of the fields read or written under it. The
+		// result is picked up by GetPodResources() once we are done.
 		if ch != nil {
-			p.PodResources = <-ch
-			log.Debug("fetched pod resources %+v for %s", p.PodResources, p.GetName())
+			p.fetchedRes = <-ch
+			log.Debug("fetched pod resources %+v", p.fetchedRes)
 		}
 	}()
 }
 
 func (p *pod) setPodResources(podRes *podresapi.PodResources) {
+	p.waitResCh = nil // supersedes any fetch still in flight
 	p.PodResources = podRes
 	log.Debug("set pod resources %+v for %s", p.PodResources, p.GetName())
 }
@@ -160,6 +164,10 @@ func (p *pod) GetPodResources() *podresapi.PodResources {
 	if p.waitResCh != nil {
 		log.Debug("waiting for pod resources fetch to complete...")
 		<-p.waitResCh
+		p.waitResCh = nil
+		if p.fetchedRes != nil {
+			p.PodResources = p.fetchedRes
+		}
 	}
 	return p.PodResources
 }
